@@ -22,7 +22,7 @@ func (c *ProgCase) Reqs() []Req  { return []Req{{Src: []byte(c.P.Source())}} }
 
 func upperLen(s PStmt) int {
 	switch s.K {
-	case "inst", "movl", "lgdt", "meml", "farjmp":
+	case "inst", "movl", "lgdt", "meml", "farjmp", "stl":
 		return 13
 	case "jmp":
 		return 6
